@@ -5,6 +5,8 @@
 // Oracle: a==b  <=>  reference value equality (objects order-insensitive, number kinds and bit
 // patterns distinguished); a!=b is the negation; symmetry; reflexivity; transitivity on triples.
 #include <cmath>
+#include <set>
+#include <algorithm>
 #include <memory>
 
 #include "common/families.hpp"
@@ -403,6 +405,21 @@ int main(int argc, char** argv) {
     }
     return o;
   };
+  static std::vector<std::string> kpool;
+  if (kpool.empty()) {
+    std::set<std::string> seen;
+    for (unsigned len : {1u, 2u, 3u, 6u, 7u, 8u, 9u, 12u, 15u, 16u, 17u, 31u, 32u, 33u}) {
+      std::string base(len, 'm');
+      if (seen.insert(base).second) kpool.push_back(base);
+      for (unsigned pos : {0u, 1u, 6u, 7u, 8u, 15u, 16u, 31u})
+        for (unsigned char v : {(unsigned char)'a', (unsigned char)'z', (unsigned char)0x7f, (unsigned char)0x80, (unsigned char)0xc3, (unsigned char)0xe8, (unsigned char)0xff}) {
+          if (pos >= len) continue;
+          std::string k = base;
+          k[pos] = (char)v;
+          if (seen.insert(k).second) kpool.push_back(k);
+        }
+    }
+  }
   // E4: size sweep
   static std::vector<unsigned> N4;
   if (N4.empty()) {
@@ -509,6 +526,53 @@ int main(int argc, char** argv) {
         for (int ri = 0; ri < 6; ri++)
           if (!(eq(i, ri, i, ri) & 1)) ctx.violation("eq_irreflexive", "eq_irreflexive", ref::show(V[i]), "a==a is false for realisation %s", rn[ri]);
       }
+      return;
+    }
+    if (f.name[1] == '6') {
+      static const char* wn[4] = {"parsed", "parsed+maps", "api-reversed", "deep-copy(freeing alloc)"};
+      static const unsigned strides[8] = {1, 2, 3, 5, 7, 11, 13, 17};
+      unsigned st = strides[idx % 8];
+      size_t i0 = idx / 8;
+      std::vector<size_t> ks;
+      for (unsigned j = 0; j < 12; j++) {
+        size_t k = (i0 + (size_t)j * st * 29) % kpool.size();
+        if (std::find(ks.begin(), ks.end(), k) == ks.end()) ks.push_back(k);
+      }
+      ref::Value A = ref::Value::mk(ref::Obj);
+      for (size_t j = 0; j < ks.size(); j++) A.o.emplace_back(kpool[ks[j]], ref::Value::mkU(j));
+      ref::Value Brev = A;
+      std::reverse(Brev.o.begin(), Brev.o.end());
+      ref::Value C = A;
+      C.o[C.o.size() / 2].second = ref::Value::mkU(999);
+      RealW za, zb, zc;
+      std::string e1 = realise_wide(A, za), e2 = realise_wide(Brev, zb), e3 = realise_wide(C, zc);
+      std::string desc = "12 pool keys from " + std::to_string(i0) + " stride " + std::to_string(st);
+      if (!e1.empty() || !e2.empty() || !e3.empty()) {
+        ctx.violation("harness_build", "harness_build", desc, "harness error: %s", (e1 + e2 + e3).c_str());
+        return;
+      }
+      ctx.nontriv();
+      if (ctx.want_sample) ctx.sample(desc);
+      auto cmp = [&](RealW& x, RealW& y, bool want, const char* what) {
+        for (int ri = 0; ri < 4; ri++)
+          for (int rj = 0; rj < 4; rj++) {
+            ctx.eval();
+            auto go = [&](const auto& X) -> bool {
+              switch (rj) {
+                case 0: return X == *y.parsed;
+                case 1: return X == *y.mapped;
+                case 2: return X == *y.api_rev;
+                default: return X == *y.copied;
+              }
+            };
+            bool e = ri == 0 ? go(static_cast<const PoolDoc::NodeType&>(*x.parsed)) : ri == 1 ? go(static_cast<const PoolDoc::NodeType&>(*x.mapped)) : ri == 2 ? go(static_cast<const PoolDoc::NodeType&>(*x.api_rev)) : go(static_cast<const SimpleDoc::NodeType&>(*x.copied));
+            if (e != want) ctx.violation("eq_vs_model", want ? "eq_false_negative_keypool" : "eq_false_positive_keypool", desc, "%s %s: [%s] == [%s] is %d but the values are %s", desc.c_str(), what, wn[ri], wn[rj], (int)e, want ? "equal" : "different");
+          }
+      };
+      cmp(za, za, true, "value vs itself");
+      cmp(za, zb, true, "value vs its reversal");
+      cmp(zb, za, true, "reversal vs value");
+      cmp(za, zc, false, "value vs copy with one value changed");
       return;
     }
     if (f.name[1] == '5') {
@@ -649,13 +713,21 @@ int main(int argc, char** argv) {
   f4.group = "E4";
   f4.chunk = 8;
   f4.rule = "objects of EVERY size n in 0..130 and 255..257, 511..513, 1023..1025 (keys k0..): all ordered pairs over 5 variants (base, reversed, rotated by 7, last value changed, last member dropped) x 16 pairs of realisations (parsed / with lookup maps / API-built in reverse order / deep copy into a freeing-allocator document), and arrays of the same sizes (base, last element changed)";
+  // E6: objects whose member NAMES come from a pool of keys of mixed lengths and byte values (non-ASCII next to ASCII,
+  // lengths on both sides of 8 / 16 / 32): the lookup map of the right-hand side orders them with the library's comparator
+  vr::Family f6;
+  f6.name = "E6_key_pool_objects";
+  f6.count = (uint64_t)kpool.size() * 8;
+  f6.group = "E6";
+  f6.chunk = 16;
+  f6.rule = "objects of 12 members named from a pool of " + std::to_string(kpool.size()) + " keys (lengths 1..33 around 8/16/32, one byte of value a/z/7f/80/c3/e8/ff at positions 0,1,6,7,8,15,16,31), 8 strides: the value, its reversal and a copy with one value changed, each parsed / with lookup maps / API-built in reverse / deep-copied: all 16 realisation pairs of equal values are ==, of different values !=";
   vr::Family f5;
   f5.name = "E5_scalar_overloads";
   f5.count = 40;
   f5.group = "E5";
   f5.chunk = 4;
   f5.rule = "node == scalar for the C++ types the overload accepts (bool, int, uint32_t, int64_t, uint64_t, float, double, StringView): 40 nodes of every kind (integers around 0 / 2^31 / 2^32 / 2^53 / 2^63 / extremes, doubles incl. +-0.0, integral values, NaN, infinities, strings, empty containers, null, booleans) x 60 scalars: the result must be that of node == NodeType(scalar) and of reference value equality with number kinds distinguished, != its negation";
-  std::vector<vr::Family> fams = {f1, f2, f3, f4, f5};
+  std::vector<vr::Family> fams = {f1, f2, f3, f4, f5, f6};
   if (args.replay) return R.replay_one(fams, check);
   for (auto& f : fams) R.run(f, check);
   return R.finish();
